@@ -168,11 +168,29 @@ def _guard(ck, prog, f, construct, tag, wparam=None, paths=None):
         return
     # fallback when the function could not be enumerated: the guard call must be visibly first (its absence is then undecided)
     wparam = wparam or f.params()[1]
-    first = None
-    for s in f.body():
-        if any(isinstance(n, ast.Name) and n.id == wparam for n in ast.walk(s)):
-            first = s
+    from lcsa import bind as _bind
+    hops = 0
+    while True:
+        first = None
+        for s in f.body():
+            if any(isinstance(n, ast.Name) and n.id == wparam for n in ast.walk(s)):
+                first = s
+                break
+        # a forwarder (`return self.helper(..., window, ...)` as the first use): the obligation moves to the helper, with the window bound to
+        # the helper's formal; a forward to something that cannot be resolved is not judged
+        fwd = first.value if isinstance(first, (ast.Return, ast.Expr)) and isinstance(first.value, ast.Call) else None
+        if fwd is None or prog.resolve_call(f, fwd) is g:
             break
+        direct = [a for a in list(fwd.args) + [k.value for k in fwd.keywords] if isinstance(a, ast.Name) and a.id == wparam]
+        if not direct:
+            break
+        callee, b = _bind.bind(prog, f, fwd)
+        if callee is not None and (callee.mod is not g.mod or callee.cls != g.cls):
+            break          # handed to another class: the (private) guard of this class cannot run there - the forward itself is the unguarded use
+        ck.shape(callee is not None and b is not None and hops < 3, "%s: the window size is handed to %s, which could not be resolved" % (f.qual, unparse(fwd.func)), f.loc(first))
+        formal = [k for k, v in b.items() if v is direct[0]]
+        ck.shape(len(formal) == 1, "%s: the window size is bound to one formal of %s" % (f.qual, callee.qual), f.loc(first))
+        f, wparam, hops = callee, formal[0], hops + 1
     ok = False
     if first is not None and isinstance(first, ast.Expr) and isinstance(first.value, ast.Call):
         callee = prog.resolve_call(f, first.value)
@@ -236,7 +254,64 @@ DEFAULT_GROUPS = [["E", "D"], ["R", "K"], ["R", "K", "E", "D"], ["Q", "N", "S", 
                   ["A", "L", "M", "I", "V"], ["F", "Y", "W"], ["P"]]
 
 
+def _compositions_evaluated(ck, prog):
+    """linearCompositions decided on its evaluated result: called with no groups, with one group and with four groups (window 2k+1) it must
+    return (positions 1..N, one row per group in the order given - the default table when none is given - each row the density profile of
+    exactly that group at the requested window); a group with a letter outside the twenty is refused.  Raises Undecided when the evaluator
+    cannot follow the function (the syntactic reading below is tried then)."""
+    f = prog.fn(SEQ, "Sequence.linearCompositions")
+    construct = SEQ_PATH + ":Sequence.linearCompositions"
+    wval = K * Rat.const(2) + Rat.const(1)
+
+    def rows_for(grps):
+        ev = Evaluator(prog, positive=("N", "k", "w"))
+        ev.int_atoms = {"k"}
+        paths = ev.run_function(f, {"bloblen": wval, "grps": grps})
+        live = [p for p in paths if p.kind == "return"]
+        if not live:
+            return None, "refused"
+        if len(live) != 1 or not (isinstance(live[0].value, tuple) and len(live[0].value) == 2):
+            raise Undecided("linearCompositions: one answering path returning a pair", f.loc())
+        pos, dens = live[0].value
+        rows = dens.rows if isinstance(dens, VStackV) else [dens]
+        out = []
+        for r in rows:
+            parts = r.parts if isinstance(r, ConcatV) else None
+            prof = next((x for x in parts if isinstance(x, ProfileV)), None) if parts else None
+            if prof is None or prof.window is None or not str(prof.window[0]).startswith("map:"):
+                raise Undecided("linearCompositions: a stacked row that is not a padded density profile", f.loc())
+            table = ev.eltables[prof.window[0][4:]]
+            vals = set(table.values())
+            if not vals <= {Fraction(0), Fraction(1), 0, 1}:
+                raise Undecided("linearCompositions: a row whose per-residue map is not 0/1", f.loc())
+            width_ok = (prof.window[2] - prof.window[1]).equals(wval)
+            out.append((sorted(L for L, v in table.items() if v == 1), width_ok))
+        return pos, out
+    cases = [("default", [], [sorted(g) for g in DEFAULT_GROUPS]),
+             ("one-group", [["A", "G"]], [["A", "G"]]),
+             ("four-groups", [["W"], ["K", "A"], ["E", "D"], ["P"]], [["W"], ["A", "K"], ["D", "E"], ["P"]]),      # neither sorted nor reverse-sorted
+             ("lower-case", [["e", "d"], ["p"]], [["D", "E"], ["P"]])]
+    results = [(name, want) + rows_for(grps) for name, grps, want in cases]       # Undecided propagates before any verdict is recorded
+    bad = rows_for([["A"], ["E", "1"]])
+    for name, want, pos, got in results:
+        ok_pos = pos is not None and isinstance(pos, ARangeV) and pos.lo.equals(Rat.const(1)) and pos.hi.equals(N + Rat.const(1))
+        ck.ob("ALG-positions", construct, ok_pos, expected="positions 1..N", found=repr(pos)[:60] if pos is not None else got, slot="compositions:%s:positions" % name, where=f.loc())
+        rule = "TAB-default-groups" if name == "default" else "FOLD-rows"
+        ck.ob(rule, construct, got != "refused" and [g for g, _ in got] == want and all(w_ for _, w_ in got), expected=want,
+              found=got if got == "refused" else [g for g, _ in got], slot="default-groups" if name == "default" else "rows:" + name, where=f.loc(),
+              note="acidic, basic, charged, polar, aliphatic, aromatic, proline - in this order" if name == "default"
+              else "one row per group, in the caller's order, each at the requested window")
+    ck.ob("MUST-parse-group", construct, bad[1] == "refused", expected="a group holding a letter outside the twenty amino acids is refused",
+          found="answered" if bad[1] != "refused" else "refused", slot="user-groups", where=f.loc())
+    ck.count("composition cases evaluated", len(results) + 1)
+
+
 def _compositions(ck, prog):
+    try:
+        _compositions_evaluated(ck, prog)
+        return
+    except Undecided as e:
+        ck.info("linearCompositions not followed by the evaluator (%s); reading its statements instead" % e.msg)
     f = prog.fn(SEQ, "Sequence.linearCompositions")
     construct = SEQ_PATH + ":Sequence.linearCompositions"
     m = f.mod
